@@ -214,6 +214,31 @@ func (c *Check) readerFraming(rule string) {
 				}
 				return "header"
 			}
+		case "offer:readerMsgCh":
+			// what is handed to the FSM is what messageFromBytes made of
+			// (body, header[18]) -- the only place the type octet is checked
+			v := args[0]
+			if exIdx(v) == 0 && (v.Args[0].Op == "rcall" || v.Args[0].Op == "call") && v.Args[0].S == "messageFromBytes" {
+				cl := v.Args[0]
+				as := cl.Args
+				if cl.Op == "rcall" {
+					as = as[1:]
+				}
+				if len(as) == 2 {
+					r, lo, hi := sliceParts(as[0])
+					t := as[1]
+					okB := r.Op == "makeslice" && lo == nil && hi == nil
+					okT := t.Op == "ld" && t.Args[0].Op == "ia" && t.Args[0].Args[0].Op == "arr" && t.Args[0].Args[0].C == 19
+					if okT {
+						iv, isC := t.Args[0].Args[1].IsConst()
+						okT = isC && iv == 18
+					}
+					if okB && okT {
+						return "decoded"
+					}
+				}
+			}
+			return "other " + trunc(v.Key, 300)
 		}
 		return ""
 	}
@@ -291,6 +316,21 @@ func (c *Check) readerFraming(rule string) {
 		c.require(ok, "C08.1 header-validation", "fsm.read", w.name, p.Pos(fn.Pos()), d)
 	}
 	_ = lenTerm
+	{
+		b := NewAnalysis(p, fn)
+		b.EventArgs = readerEvents
+		b.Run()
+		nd, bad := 0, ""
+		for ev := range allEvents(b) {
+			if ev == "offer:readerMsgCh(decoded)" {
+				nd++
+			} else if strings.HasPrefix(ev, "offer:readerMsgCh(") {
+				bad = ev
+			}
+		}
+		c.require(nd > 0 && bad == "", "C08.1 header-validation", "fsm.read", "only decoded messages are handed over", p.Pos(fn.Pos()),
+			"every value offered on readerMsgCh is the result of messageFromBytes(whole body, header[18]) (the type octet check lives there; a hand-off that bypasses it interprets an unknown type) "+bad)
+	}
 
 	// marker loop covers indices [0,16)
 	okLoop := markerLoopCovers(fn, func(ia *ssa.IndexAddr) bool {
@@ -339,7 +379,9 @@ func (c *Check) readerFraming(rule string) {
 }
 
 // readerHandoff: per-connection rendezvous channels and a re-armed Once.
-func (c *Check) readerHandoff() {
+func (c *Check) readerHandoff() { c.readerHandoffRule("C03.2 reader-handoff") }
+
+func (c *Check) readerHandoffRule(rule string) {
 	p := c.P
 	// channels are rendezvous channels: a buffered message channel would let a
 	// later fault overtake earlier messages
@@ -347,7 +389,7 @@ func (c *Check) readerHandoff() {
 		sz := p.chanMakeSizes(sr)
 		for _, ch := range []string{"readerMsgCh", "readerErrCh", "closeReaderCh", "readerDoneCh"} {
 			v, ok := sz[ch]
-			c.require(ok && v == 0, "C03.2 reader-handoff", "fsm.startReading", "channel "+ch, p.Pos(sr.Pos()), "created per connection in startReading, unbuffered (a buffered hand-off lets a fault or close overtake queued messages)")
+			c.require(ok && v == 0, rule, "fsm.startReading", "channel "+ch, p.Pos(sr.Pos()), "created per connection in startReading, unbuffered (a buffered hand-off lets a fault or close overtake queued messages)")
 		}
 		// the Once guarding close(closeReaderCh) is re-armed together with the channel
 		re := false
@@ -358,7 +400,7 @@ func (c *Check) readerHandoff() {
 				}
 			}
 		})
-		c.require(re, "C03.2 reader-handoff", "fsm.startReading", "closeReaderOnce re-armed", p.Pos(sr.Pos()), "the sync.Once guarding close(closeReaderCh) is reset whenever a new closeReaderCh is created (the FSM object is reused across connections)")
+		c.require(re, rule, "fsm.startReading", "closeReaderOnce re-armed", p.Pos(sr.Pos()), "the sync.Once guarding close(closeReaderCh) is reset whenever a new closeReaderCh is created (the FSM object is reused across connections)")
 	}
 }
 
@@ -561,8 +603,10 @@ func constOrLen(v ssa.Value) (int64, bool) {
 
 // loopSpan returns the half-open interval of values an index takes in a
 // step-1 counted loop, for the two shapes the compiler front end produces:
-//   i := c0; i < N; i++          (idx is the phi)
-//   for i := range x / for i, v := range x   (idx is phi+1 with phi starting at -1)
+//
+//	i := c0; i < N; i++          (idx is the phi)
+//	for i := range x / for i, v := range x   (idx is phi+1 with phi starting at -1)
+//
 // together with the loop header block.
 func loopSpan(idx ssa.Value) (lo, hi int64, head *ssa.BasicBlock, ok bool) {
 	if phi, isPhi := idx.(*ssa.Phi); isPhi {
@@ -696,4 +740,18 @@ func markerLoopCovers(fn *ssa.Function, use func(ia *ssa.IndexAddr) bool) bool {
 		}
 	})
 	return found
+}
+
+// exIdx returns the tuple index of an "ex" term, or -1.
+func exIdx(v *Expr) int64 {
+	if v == nil || v.Op != "ex" || len(v.Args) == 0 {
+		return -1
+	}
+	if len(v.Args) >= 2 {
+		if k, ok := v.Args[1].IsConst(); ok {
+			return k
+		}
+		return -1
+	}
+	return v.C
 }
